@@ -259,6 +259,8 @@ def run_check(prop, tier, seed, replay=None):
     procs = []
     wall_cap = {"quick": 420, "thorough": 3400}[tier]
     budget = {"quick": 75, "thorough": 900}[tier]
+    if os.environ.get("VERIF_BUDGET_S"):
+        budget = float(os.environ["VERIF_BUDGET_S"])      # (operator override, e.g. a shorter thorough sweep)
     for j in range(nworkers):
         seeds = "%d:%d:%d" % (base + j, per_worker, nworkers)
         out = os.path.join(outdir, "w%d.json" % j)
@@ -266,7 +268,7 @@ def run_check(prop, tier, seed, replay=None):
         env["PYTHONHASHSEED"] = str(j % 4)
         env["PYTHONUTF8"] = "1"
         env["PYTHONDONTWRITEBYTECODE"] = "1"
-        env["VERIF_WORKER_BUDGET"] = str(spec.get("budget", {}).get(tier, budget))
+        env["VERIF_WORKER_BUDGET"] = str(budget if os.environ.get("VERIF_BUDGET_S") else spec.get("budget", {}).get(tier, budget))
         env["VERIF_WORKER_TIMEOUT"] = str(wall_cap)
         env["VERIF_TIER"] = tier
         env.pop("BEHAVE_VERIF_SIM", None)
